@@ -175,6 +175,17 @@ def audit(pid, timeout=1200, only=None):
             f.write("#print axioms %s\n" % t)
     try:
         rc, out, _ = sh(["lake", "env", "lean", path], cwd=LEAN, timeout=timeout)
+        if rc != 0 and "environment already contains" in out and len(mods) > 1:
+            # two property modules import semantic preludes that define the same name (each prelude belongs to one
+            # translator; they are not meant to be imported together): audit the modules one by one instead
+            rc, out = 0, ""
+            for mod in mods:
+                with open(path, "w") as f:
+                    f.write("import BpProofs.Props.%s\n" % mod)
+                    for t in module_theorems(pid, mod):
+                        f.write("#print axioms %s\n" % t)
+                rc1, out1, _ = sh(["lake", "env", "lean", path], cwd=LEAN, timeout=timeout)
+                rc, out = rc or rc1, out + out1
     finally:
         try:
             os.unlink(path)
